@@ -75,6 +75,8 @@ def check_dunders(rep, rule, model, ci, dunders, wrappers, exceptions, other_pro
         other = params[1]
         assigns = single_assignments(fi.node)
         for ret in [n for n in walk_own(fi.node) if isinstance(n, ast.Return) and n.value is not None]:
+            if isinstance(ret.value, ast.Constant) and ret.value.value is None:
+                continue            # `return None`: the operand kind is not supported (same as falling off the end)
             n_branches += 1
             core = unwrap(ret.value, wrappers, assigns)
             text = src(core)
